@@ -77,7 +77,7 @@ Spec == Init /\ [][Next]_vars
 
 -----------------------------------------------------------------------------
 TypeOK ==
-    /\ q >= 0 /\ ncas >= 0 /\ nstart >= 0 /\ drain >= 0 /\ rel >= 0 /\ chk >= 0 /\ recas >= 0
+    /\ q \in Nat /\ ncas \in Nat /\ nstart \in Nat /\ drain \in Nat /\ rel \in Nat /\ chk \in Nat /\ recas \in Nat
     /\ running \in {0, 1}
 
 \* exactly the owner holds the flag: at most one incarnation is in the owning phases
